@@ -18,6 +18,10 @@ pub struct ModelBatch {
 }
 
 pub fn wild_eq(expected: &str, got: &str) -> bool {
+    // the model may offer two views of one state (`a || b`): either one may be the implementation's
+    if got.contains(" || ") {
+        return got.split(" || ").any(|g| wild_eq(expected, g));
+    }
     if let Some(p) = expected.strip_suffix('*') {
         return got.len() >= p.len() && wild_eq_exact(p, &got[..p.len()]);
     }
